@@ -294,11 +294,34 @@ def scenes():
         return s
 
     out["point_clouds_before_meshes"] = cloud_first
+
+    def near_identity():
+        # node transforms that differ from the identity by little: more than the graph's rigid-repair
+        # window (1e-5 on R.R^T) or in the translation only, but close enough that a relative comparison
+        # with the identity would call them equal
+        s = trimesh.Scene()
+        box = mk_mesh(*ms["box"])
+        mats = {
+            "scale_8e-6": H(np.eye(3) * (1 + 8e-6)),
+            "scale_x_9e-6": H(np.diag([1 + 9e-6, 1.0, 1.0])),
+            "shrink_7e-6": H(np.eye(3) * (1 - 7e-6)),
+            "shift_1e-7": H(tr=[1e-7, 0, -1e-7]),
+            "shift_3e-6": H(tr=[0, 3e-6, 0]),
+            "identity": H(),
+        }
+        for k, m in mats.items():
+            s.add_geometry(box, node_name=k, geom_name="box", transform=m)
+        s.graph.update(frame_to="child_of_scaled", frame_from="scale_8e-6", matrix=H(RZ, [0, 0, 2]), geometry="box")
+        return s
+
+    out["near_identity_nodes"] = near_identity
     return out
 
 
 # scenes that only the formats able to hold their members are asked to carry
-SCENE_FORMATS = {"point_clouds_before_meshes": ("glb", "gltf", "obj")}
+SCENE_FORMATS = {"point_clouds_before_meshes": ("glb", "gltf", "obj"), "near_identity_nodes": ("glb", "gltf", "dict", "dict64")}
+# formats that store node names and node matrices as written (decimal text of the doubles, or the doubles themselves)
+NODE_MATRIX_FORMATS = ("glb", "gltf", "dict", "dict64")
 
 
 def canon_tris(T, q):
@@ -349,6 +372,12 @@ def _w_scene(task):
         feature = "a node with geometry has children" if any(n in parents for n in s.graph.nodes_geometry) else "geometry only at leaf nodes"
         if any(hasattr(g, "faces") and len(g.faces) == 0 for g in s.geometry.values()):
             feature = "scene holds an empty mesh"
+        if ft in NODE_MATRIX_FORMATS and set(flat0) <= set(res.graph.nodes_geometry):
+            # the format keeps node names and full-precision matrices: every instance is placed by the same matrix
+            worst = max((float(np.abs(np.asarray(res.graph[n][0]) - flat0[n]).max() / max(1.0, np.abs(flat0[n]).max())), n) for n in flat0) if flat0 else (0.0, None)
+            if worst[0] > 1e-12:
+                small = any(0 < np.abs(flat0[n] - np.eye(4)).max() < 1e-4 for n in flat0)
+                t.violation(f"scene round trip changes a node's transform [{ft}; {'a node transform close to the identity' if small else feature}]", case, {"node": worst[1], "max_abs_rel": worst[0]})
         if got.shape != want.shape:
             t.violation(f"scene round trip changes the number of placed triangles [{ft}; {feature}]", case, {"got": len(got), "want": len(want)})
         elif canon_tris(got, q) != canon_tris(want, q):
@@ -422,19 +451,44 @@ def _w_paths(_):
             "lines2d": lambda: Path2D(entities=[Line([0, 1, 2, 3, 0]), Line([4, 7])], vertices=v2.copy(), process=False),
             "lines+arc2d": lambda: Path2D(entities=[Line([0, 1, 2, 3, 0]), Arc([4, 5, 6])], vertices=v2.copy(), process=False),
             "lines3d": lambda: Path3D(entities=[Line([0, 1, 2, 0])], vertices=np.array([[0, 0, 0], [1, 0, 0.5], [0, 1.0 / 3.0, 2]]), process=False),
+            "lines3d_several_entities": lambda: Path3D(
+                entities=[Line([0, 1, 2]), Line([2, 3]), Line([4, 5, 6]), Line([6, 3]), Line([1, 5])],
+                vertices=np.array([[0, 0, 0], [1, 0, 0], [1, 1, 0], [0, 1, 1], [2, 2, 2], [3, 2, 2], [3, 3, 1.0]]),
+                process=False,
+            ),
+            "lines2d_several_entities": lambda: Path2D(entities=[Line([0, 1]), Line([1, 2, 3]), Line([3, 0]), Line([4, 5, 6, 4]), Line([7, 5])], vertices=v2.copy(), process=False),
         }
+
+        def segset(P, q=1e-5):
+            out = []
+            for e in P.entities:
+                d = np.asarray(e.discrete(np.asarray(P.vertices)), dtype=float)
+                for a, b in zip(d[:-1], d[1:]):
+                    ka, kb = tuple(np.round(a / q).astype(np.int64).tolist()), tuple(np.round(b / q).astype(np.int64).tolist())
+                    if ka != kb:
+                        out.append((min(ka, kb), max(ka, kb)))
+            return sorted(out)
+
         for pname, mk in paths.items():
-            for ft in ("dxf", "svg", "dict"):
-                if pname == "lines3d" and ft in ("svg", "dxf"):
+            for ft in ("dxf", "svg", "dict", "ply", "ply_ascii"):
+                if pname.startswith("lines3d") and ft in ("svg", "dxf"):
                     continue  # planar formats
+                if ft.startswith("ply") and not pname.startswith("lines3d"):
+                    continue  # ply stores 3D edges
                 case = {"family": "path", "path": pname, "format": ft}
                 t.evaluations += 1
                 t.nontrivial_count += 1
                 p = mk()
                 v0 = np.array(p.vertices).tobytes()
                 try:
-                    data = p.export(file_type=ft)
-                    if ft == "dict":
+                    if ft.startswith("ply"):
+                        data = trimesh.exchange.ply.export_ply(p, encoding="ascii" if ft == "ply_ascii" else "binary")
+                        r = trimesh.load_path(io.BytesIO(data), file_type="ply")
+                    else:
+                        data = p.export(file_type=ft)
+                    if ft.startswith("ply"):
+                        pass
+                    elif ft == "dict":
                         from trimesh.path.exchange.misc import dict_to_path
 
                         kw = dict_to_path(data)
@@ -452,10 +506,13 @@ def _w_paths(_):
                 if abs(L0 - L1) > 1e-5 * max(1, L0):
                     t.violation(f"path round trip changes the total length [{ft}; {pname}]", case, {"got": L1, "want": L0})
                     continue
+                if all(type(e).__name__ == "Line" for e in list(p.entities) + list(r.entities)) and segset(p) != segset(r):
+                    t.violation(f"path round trip changes the set of segments [{ft}; {'more than two entities' if len(p.entities) > 2 else pname}]", case, {"n_got": len(segset(r)), "n_want": len(segset(p))})
+                    continue
                 e0 = sorted((type(e).__name__, len(e.points)) for e in p.entities)
                 e1 = sorted((type(e).__name__, len(e.points)) for e in r.entities)
-                seg0 = np.vstack([np.asarray(d) for d in p.discrete]) if len(p.entities) else np.zeros((0, 2))
-                seg1 = np.vstack([np.asarray(d) for d in r.discrete]) if len(r.entities) else np.zeros((0, 2))
+                seg0 = np.vstack([np.asarray(e.discrete(np.asarray(p.vertices))) for e in p.entities]) if len(p.entities) else np.zeros((0, 2))
+                seg1 = np.vstack([np.asarray(e.discrete(np.asarray(r.vertices))) for e in r.entities]) if len(r.entities) else np.zeros((0, 2))
                 b0 = np.array([seg0.min(axis=0), seg0.max(axis=0)])
                 b1 = np.array([seg1.min(axis=0), seg1.max(axis=0)])
                 if b0.shape != b1.shape or np.abs(b0 - b1).max() > 1e-5 * max(1, np.abs(b0).max()):
@@ -500,7 +557,7 @@ def main(run):
     run.merge(res)
     cov = {
         "exhaustive": True,
-        "rule": "geometry family (single face, 5 and 9 faces, tetrahedron with extreme coordinates, box, coordinate alphabet, vertex index >= 65536) x colours {none, face, vertex} x 11 mesh formats x their options x {file object, path}; 4 scenes (nested, instanced, with an empty geometry, scaled instance) x 8 scene formats; point clouds x ply/xyz/glb; paths x dxf/svg/dict",
+        "rule": "geometry family (single face, 5 and 9 faces, tetrahedron with extreme coordinates, box, coordinate alphabet, vertex index >= 65536) x colours {none, face, vertex} x 11 mesh formats x their options x {file object, path}; 6 scenes (nested, instanced, with an empty geometry, scaled instance, point clouds first, node transforms close to the identity) x 8 scene formats, node matrices compared to 1e-12 where the format stores them (glb, gltf, dict, dict64); point clouds x ply/xyz/glb; 5 paths (incl. 5-entity 2D and 3D line paths) x dxf/svg/dict/ply binary/ply ascii with the set of segments compared for line paths",
         "formats": list(MESH_FORMATS),
     }
     return run.finish(cov, assumptions=["float32 formats: loaded coordinates must equal float32(source) exactly; text formats: half a unit of the written digits", "face colours are only demanded from formats that store per-face colours (ply, dict); vertex colours from ply, obj, glb, gltf, dict"])
